@@ -1038,9 +1038,12 @@ impl VarianceTerm<Size> for Archetype {
 
 impl<'t> VarianceTerm<Text<'t>> for Archetype {
     fn term(&self) -> InvariantTerm<Text<'t>> {
+        // Classes never match separators, so a separator in a class is not a part of any text
+        // that the class matches (and is certainly not invariant text).
+        let is_separator = |x: &char| std::path::is_separator(*x);
         match self {
             Archetype::Character(x) => {
-                if PATHS_ARE_CASE_INSENSITIVE {
+                if PATHS_ARE_CASE_INSENSITIVE || is_separator(x) {
                     Variance::Variant(Boundedness::BOUNDED)
                 }
                 else {
@@ -1048,7 +1051,7 @@ impl<'t> VarianceTerm<Text<'t>> for Archetype {
                 }
             },
             Archetype::Range(a, b) => {
-                if (a != b) || PATHS_ARE_CASE_INSENSITIVE {
+                if (a != b) || PATHS_ARE_CASE_INSENSITIVE || is_separator(a) {
                     Variance::Variant(Boundedness::BOUNDED)
                 }
                 else {
